@@ -6,6 +6,21 @@ BASE = "cd /repo && go test -mod=mod -json -vet=off -count=1 -timeout 25m ./..."
 
 CLAIMED = {
  # id: (category, text, design_ref, level_note, technique)
+ "C01": ("other",
+  "Decides the shape of the index algebra for every element type and both back-ends: a unit-typed abstract interpretation (S storage cells, R allocated index, V view index; Start:S, Offset:S/R, Step:R/V, OffsetStep:S/V, loc:V) of every store to the stride fields, every index into the backing store and the result of Index, with helper functions analysed from their bodies; Slice shares the receiver's storage; every element access goes through Index(loc) of the same receiver. A stride-composition formula that is wrong for nested stepped slices has inconsistent units and is reported (this found the SliceInto defect, now fixed). Bounds and arithmetic beyond dimensional consistency are NOT decided.",
+  "DESIGN.md section 2, C01",
+  "Dims/OriginalDims are untyped; literals and lengths are polymorphic; a wrong constant factor would pass. In-bounds-ness of loc/dims/step is assumed.",
+  "dimensional (unit) abstract interpretation over go/ssa + storage-sharing and addressing-path checks"),
+ "C02": ("other",
+  "Structural clauses of the bulk operations, per element type: every range access Impl[a:b] and every write through x.Unroll() that relies on aliasing is dominated by Contiguous()==true on that object (or x is a fresh root array); the contiguity predicate branches on Step, Dims and OriginalDims/Offset; Go-backed Unroll returns a sub-slice of the storage when contiguous and Reshape builds on it; ReshapeFast fails exactly under !Contiguous(), Reshape succeeds exactly on the equal edge of the element-count comparison; fresh strides are laid over own storage only when contiguous; Argmax returns an index of its parameter (index-space typing; found and fixed an off-by-one). Equality of fast and general paths as values is NOT decided.",
+  "DESIGN.md section 2, C02",
+  "Exactness of Contiguous' arithmetic and of Increment/Offsets/IDivMod/Product is not decided. C-backed types are judged under C03.",
+  "guard-edge dominance, alias tracking of Unroll results and index-space typing on go/ssa"),
+ "C03": ("other",
+  "Sibling agreement and the C ABI protocol: the C01/C02 rule sets are evaluated on the nine C-backed types (found and fixed the in-place reshape of non-contiguous C views); write-through-Unroll fast paths that can receive a C-backed array are reported (14 known findings: AddTo*/ApplyFunc1* leave a C-backed destination unchanged); unsafe.Pointer conversions exist only in the constructors and at the cgo boundary; RunSingleModel performs FindDimensions→InitialiseDimensions before ApplyParameters, which dominates InitialiseStates and Run; Run gets InitialiseStates' result exactly under initStates, else the caller's buffer; final states are copied back after Run under initStates. Output equality with the Go API is NOT decided.",
+  "DESIGN.md section 2, C03",
+  "No length information exists for *[1<<30]T, so buffer bounds cannot be decided; in-bounds loc is assumed. cgo-generated code is not modelled.",
+  "sibling rule-set agreement + who-may-convert rule for unsafe.Pointer + dominator-based call-protocol check"),
  "C04": ("other",
   "Structural necessary conditions of cell independence, decided on each of the 41 generated wrappers and their kernels: inputs and parameter views are never written (interprocedural effect summaries incl. Unroll aliases and closure captures); every write to states/outputs goes through a view restricted to the goroutine's own cell (pos[CELL]==i, size[CELL]==1, vectors allocated per goroutine); every broadcast `i % n` uses the extent of the array actually indexed; table parameters are cut to the cell's own length; kernel arguments are the spec's inputs/params/outputs in order. Equality of values with single-cell runs is NOT established directly.",
   "DESIGN.md section 2, C04",
